@@ -4,6 +4,7 @@ import (
 	"context"
 	"fmt"
 	"math/rand/v2"
+	"os"
 
 	"github.com/yorkie-team/yorkie/api/types"
 	"github.com/yorkie-team/yorkie/server/backend/database"
@@ -92,6 +93,9 @@ func (m *gcTwinMonitor) Final(rc *RunCtx) *Violation {
 	for i := range rc.Trace {
 		st := rc.Trace[i]
 		sr := w2.Exec(&st)
+		if drainDebug {
+			fmt.Fprintf(os.Stderr, "TWIN %d %s -> %s spawned=%d\n", i, st.String(), sr.Out, w2.bgSpawned())
+		}
 		(&sessionTap{}).AfterStep(rc2, i, &st, &sr)
 		if i < len(outs1) && sr.Out != outs1[i] {
 			return &Violation{Property: m.prop, Oracle: "gc_twin_same_outcome", Class: "gc_changes_step_outcome:" + st.Op,
